@@ -189,6 +189,7 @@ func TestReplayFile(t *testing.T) {
 		"witness-deleted-user-media":     TestWitnessDeletedUserToken,
 		"witness-streams-list":           TestWitnessDeletedUserToken,
 		"witness-wsp-foreign-join":       TestWitnessWspForeignJoin,
+		"witness-suffix-checked-path":    TestWitnessCheckedPathIsServedPath,
 	}
 	if f, ok := witnesses[doc.Check]; ok {
 		t.Run(doc.Check, f)
